@@ -123,6 +123,7 @@ class Runtime:
         self.preemptions_used = 0
         self.on_step: typing.Callable[[], None] | None = None
         self._fired: set[int] = set()
+        self._agens = 0
         self.on_idle: typing.Callable[[], bool] | None = None  # every task blocked: may the environment move?
         self.phase: typing.Callable[[], str] | None = None
 
@@ -300,8 +301,24 @@ class Runtime:
                 return t
         return self.ready.popleft()
 
+    def _finalize_agen(self, agen: typing.Any) -> None:
+        # what asyncio / trio do for an async generator that is garbage
+        # collected before it finished: close it in a task of its own
+        self._agens += 1
+        self.spawn(f"agen-finalizer{self._agens}", agen.aclose())
+
     def run(self) -> None:
         """Run until every task is done or nothing can make progress."""
+        import sys
+
+        old = sys.get_asyncgen_hooks()
+        sys.set_asyncgen_hooks(firstiter=None, finalizer=self._finalize_agen)
+        try:
+            self._run()
+        finally:
+            sys.set_asyncgen_hooks(*old)
+
+    def _run(self) -> None:
         while True:
             self._apply_cancels()
             self._poll_blocked()
